@@ -6,3 +6,5 @@ has the shape the proofs are about.
 import Anytype.Generated.Async
 import Anytype.Generated.WriteSet
 import Anytype.Generated.Api
+import Anytype.Generated.ParserGen
+import Anytype.Lemmas.ParserGenEq
